@@ -284,6 +284,29 @@ Proof.
       apply Z.leb_le. exact Hle.
 Qed.
 
+(* 8. departure *)
+Lemma o_depart_sound : forall sc ob, o_depart sc ob = true <-> s_depart sc ob.
+Proof.
+  intros sc ob. unfold o_depart, s_depart. rewrite forallb_forall. split.
+  - intros H e Hin x y q Hx Hy Hq Hacc r Hr Hle Hmb. specialize (H e Hin).
+    unfold depart_ok in H. rewrite Hx, Hy, Hq, Hacc in H. cbv zeta in H.
+    rewrite forallb_forall in H. specialize (H r Hr).
+    rewrite (proj2 (Z.leb_le _ _) Hle), Hmb in H.
+    destruct (closed_step ob (fst e)) as [z|]; [|discriminate H].
+    exists z. split; [reflexivity|]. apply Z.leb_le. exact H.
+  - intros H e Hin. unfold depart_ok.
+    destruct (cancel_step sc (fst e)) as [x|] eqn:Hx; [|reflexivity].
+    destruct (reader_start sc e) as [y|] eqn:Hy; [|reflexivity].
+    destruct (done_step ob (fst (snd e))) as [q|] eqn:Hq; [|reflexivity].
+    destruct (accepted_for_sure sc ob (fst (snd e))) eqn:Hacc; [|reflexivity].
+    cbv zeta. apply forallb_forall. intros r Hr.
+    destruct (Z.max x (Z.max y q) <=? r) eqn:Hle; [|reflexivity].
+    destruct (may_block sc ob r) eqn:Hmb; [reflexivity|].
+    apply Z.leb_le in Hle.
+    destruct (H e Hin x y q Hx Hy Hq Hacc r Hr Hle Hmb) as [z [Hz Hzr]]. rewrite Hz.
+    apply Z.leb_le. exact Hzr.
+Qed.
+
 (* ---------------------------------------------------------------------------------------- *)
 (* the oracle decides the spec *)
 
@@ -291,14 +314,14 @@ Theorem oracle_sound : forall iv sc ob, oracle iv sc ob = true <-> spec iv sc ob
 Proof.
   intros iv sc ob. unfold oracle, spec. rewrite !andb_true_iff.
   rewrite o_valid_sound, o_once_sound, o_not_early_sound, o_suppress_sound, o_due_order_sound,
-    o_same_order_sound, o_no_hole_sound, o_complete_sound, o_close_sound.
+    o_same_order_sound, o_no_hole_sound, o_complete_sound, o_close_sound, o_depart_sound.
   split.
-  - intros [[[[[[[[[H0 H1] H2] H3] H4] H5] H6] H7] H8] H9].
+  - intros [[[[[[[[[[H0 H1] H2] H3] H4] H5] H6] H7] H8] H9] H10].
     pose proof (proj1 (o_no_wedge_sound sc ob H0) H7) as H7'.
-    exact (conj H0 (conj H1 (conj H2 (conj H3 (conj H4 (conj H5 (conj H6 (conj H7' (conj H8 H9))))))))).
-  - intros [H0 [H1 [H2 [H3 [H4 [H5 [H6 [H7 [H8 H9]]]]]]]]].
+    exact (conj H0 (conj H1 (conj H2 (conj H3 (conj H4 (conj H5 (conj H6 (conj H7' (conj H8 (conj H9 H10)))))))))).
+  - intros [H0 [H1 [H2 [H3 [H4 [H5 [H6 [H7 [H8 [H9 H10]]]]]]]]]].
     pose proof (proj2 (o_no_wedge_sound sc ob H0) H7) as H7'.
-    exact (conj (conj (conj (conj (conj (conj (conj (conj (conj H0 H1) H2) H3) H4) H5) H6) H7') H8) H9).
+    exact (conj (conj (conj (conj (conj (conj (conj (conj (conj (conj H0 H1) H2) H3) H4) H5) H6) H7') H8) H9) H10).
 Qed.
 
 (* Non-vacuity: both sides hold on a concrete run (one prompt subscriber, one Batch, the clock
